@@ -5,6 +5,7 @@ package props
 import (
 	"os"
 	"path/filepath"
+	"strings"
 	"testing"
 
 	"github.com/aml-org/amf-custom-validator/pkg/verifhook"
@@ -21,7 +22,12 @@ type c18HookCase struct {
 func genC18Hook(t *rapid.T) c18HookCase {
 	if rapid.Bool().Draw(t, "isGenerate") {
 		var text string
-		switch rapid.IntRange(0, 5).Draw(t, "pk") {
+		switch rapid.IntRange(0, 6).Draw(t, "pk") {
+		case 6:
+			// profiles the translator turns into a policy although the engine will refuse it later (a denied
+			// built-in, an undefined function, a type error): `generate` prints the policy all the same
+			code := pick(t, []string{"r := http.send({\"method\": \"get\", \"url\": \"http://localhost/\"})\n$result = (r.status_code == 200)", "$result = undefined_function($node)", "walk($node, [p, v])\n$result = true", "$result = (1 + \"a\" > 0)", "rt := opa.runtime()\n$result = is_object(rt)"}, "uncompilableRego")
+			text = "profile: generates only\nprefixes:\n  ex: http://ex.org/v#\nviolation:\n- v\nvalidations:\n  v:\n    targetClass: ex.Test\n    rego: |\n      " + strings.ReplaceAll(code, "\n", "\n      ") + "\n"
 		case 0:
 			text = pick(t, rawProfiles, "raw")
 		case 1:
